@@ -405,7 +405,43 @@ class Runner:
             t.join()
         if errors:
             raise HarnessError("runner failure: %r" % errors[0])
+        if self.mode == "worker" and self.guard and len(jobs) >= 8:
+            results = self._differential_guard(jobs, results)
         return results
+
+    guard = True
+    drift = False
+
+    def _differential_guard(self, jobs, results):
+        """The in-process worker re-implements main()'s round loop and the printing tail of evaluationLoop.  A spread
+        sample of the jobs is repeated with the real binary; if the outputs differ as sets of lines the tree under test
+        has changed that orchestration: every job of this batch is then repeated with the real binary, whose results
+        are the ones returned (events of the worker runs are kept)."""
+        idx = sorted(set(int(k * (len(jobs) - 1) / 23.0) for k in range(24)))
+        slot = self.work.sub("guard")
+        differs = 0
+        for i in idx:
+            r = results[i]
+            if r is None or r.get("skipped") or r.hung or r.crashed or r.get("harness_error"):
+                continue
+            b = run_blackbox(self.plain, slot, jobs[i])
+            if b.get("timeout") or b.get("panic"):
+                continue
+            if sorted((b.get("out") or "").split("\n")) != sorted((r.get("out") or "").split("\n")):
+                differs += 1
+        if differs == 0:
+            return results
+        Runner.drift = True
+        print("NOTE worker and real binary disagree on %d of %d sampled jobs: this batch is repeated with the real binary" % (differs, len(idx)))
+        bb = Runner(self.work, "blackbox")
+        real = bb.run_many(jobs)
+        for r, w in zip(real, results):
+            if w is not None and w.get("events") is not None and r.get("events") is None:
+                r["events"] = w.get("events")
+            if r.get("timeout") and w is not None and not w.hung:
+                # the 500 ms watchdog under load: keep the worker's answer for this job
+                r.update(w)
+        return real
 
 
 def confirm_alone(work, job, runs=2):
